@@ -89,6 +89,14 @@ CHECKS = {
         'stim.py by random programs on real objects with in-place writes into every returned array, plus queue append/clone programs judged by an oracle.',
    ref='DESIGN.md section 6 C10', note=COMMON_NOTE + ' That real objects have no hidden shared state beyond what the model lists is probed by the correspondence, not proved; RandomSignalQueue (global RNG by design) is outside.',
    technique='Coq proof (refinement of an aliasing heap model to a pure reference semantics) + vm_compute model outputs compared against stim.py'),
+ 'C03': dict(
+   text='Theorem: for every queue class, any number of stimuli, any trial counts >= 1, any group size >= 1 (dividing or not) and any request chunking, once the queue '
+        'has reported empty the sequence of presented stimuli IS the policy order (FIFO: insertion order with exact counts; interleaved: the round robin, exact counts without '
+        'keep / stop at the first moment all satisfied with keep; blocked random: prefix of the concatenated shuffle blocks, stops at first moment; grouped: group index never '
+        'decreases, stops at first moment; random: exact counts), nothing remains, requested totals unchanged; the queue does reach empty (explicit bound); afterwards only '
+        'zeros and one empty notification per request. Model tied to queue.py by exhaustive small trial vectors x all group sizes + random.',
+   ref='DESIGN.md section 6 C03', note=COMMON_NOTE + ' np.random.randint choices and RandomState.shuffle blocks are oracles (membership / permutation assumed, checked by the harness); automatic decrement; no pause.',
+   technique='Coq proof (per-policy invariants lifted through the request loop by induction) + vm_compute model outputs compared against queue.py'),
 }
 
 PENDING = 'not yet built in this round (framework is being extended property by property; see DESIGN.md section 8)'
